@@ -42,7 +42,7 @@ def written_keys(E, before, outs):
     return keys
 
 
-def havoc_for_loop(E, st, fr, names, keys, entry):
+def havoc_for_loop(E, st, fr, names, keys, entry, has_yield=True):
     """Fresh values for assigned locals and written heap keys (frame: the function's modifies clause)."""
     from .engine import V, fresh
     for n in names:
@@ -54,6 +54,17 @@ def havoc_for_loop(E, st, fr, names, keys, entry):
         new = fresh("hl_" + str(key[0]) + "_" + "_".join(str(x) for x in key[1:3] if not isinstance(x, T)), old.sort())
         st.heap[key] = new
         E.loop_frame_assumption(st, fr, key, new, E.h(entry, key))
+    if st.resume is not None and has_yield:
+        # generator mode: the resumption snapshot of an arbitrary iteration is arbitrary too
+        from .engine import State
+        rs = State()
+        rs.locals = dict(st.resume.locals)
+        rs.pc = st.pc
+        for key in set(st.heap) | set(st.resume.heap) | set(keys):
+            if key[0] in ("alloc",):
+                continue
+            rs.heap[key] = fresh("rs_" + str(key[0]), E.h(st, key).sort())
+        st.resume = rs
     if ("alloc",) in keys:
         r = fresh("r", ty.RefSort)
         st.assume(z3.ForAll([r], z3.Implies(z3.Select(E.alloc(entry), r), z3.Select(E.alloc(st), r)),
@@ -79,7 +90,7 @@ def iter_domain(E, it_node, st, fr):
         inner = iter_domain(E, it_node.args[0], st, fr)
         def elem(s, i, inner=inner):
             return E.mk_tuple([V(INT, i), inner["elem"](s, i)])
-        return dict(kind="enum", length=inner["length"], elem=elem, seq=inner.get("seq"), inner=inner)
+        return dict(kind="enum", length=inner["length"], elem=elem, seq=inner.get("seq"), inner=inner, et=inner.get("et"))
     v = E.ev(it_node, st, fr)
     if v.t.kind == "list":
         et = v.t.args[0]
@@ -135,14 +146,14 @@ def assume_invs(E, fr, st, spec, idxv):
         st.assume(E.sev_bool(inv, st, fr, binds))
 
 
-def discover(E, body_runner, st, fr, names):
+def discover(E, body_runner, st, fr, names, has_yield=True):
     """Fixed point of the heap keys written by the loop body (dry runs, no obligations)."""
     keys: set = set()
     E.dry += 1
     try:
         for _ in range(6):
             trial = st.copy()
-            havoc_for_loop(E, trial, fr, names, keys, st)
+            havoc_for_loop(E, trial, fr, names, keys, st, has_yield)
             saved_exc, fr.exc = fr.exc, []
             before = trial.copy()
             outs = body_runner(trial, True)
@@ -196,10 +207,11 @@ def exec_for(E, s: ast.For, st, fr):
 
         idxname = "$idx%d" % id(s)
         st.locals[idxname] = V(INT, z3.IntVal(0))
-        keys = discover(E, run_body, st, fr, names | {idxname})
+        hy = any(isinstance(n, ast.Yield) for b in s.body for n in ast.walk(b))
+        keys = discover(E, run_body, st, fr, names | {idxname}, hy)
         # 2. havoc + assume invariant at an arbitrary iteration
         head = st
-        havoc_for_loop(E, head, fr, names | {idxname}, keys, entry)
+        havoc_for_loop(E, head, fr, names | {idxname}, keys, entry, hy)
         i = head.locals[idxname].z
         head.assume(i >= 0)
         if dom["kind"] != "list":
@@ -253,9 +265,10 @@ def exec_while(E, s: ast.While, st, fr):
             state.assume(c)
             return E.ex_block(s.body, state, fr)
 
-        keys = discover(E, run_body, st, fr, names)
+        hy = any(isinstance(n, ast.Yield) for b in s.body for n in ast.walk(b))
+        keys = discover(E, run_body, st, fr, names, hy)
         head = st
-        havoc_for_loop(E, head, fr, names, keys, entry)
+        havoc_for_loop(E, head, fr, names, keys, entry, hy)
         assume_invs(E, fr, head, spec, None)
         exit_st = head.copy()
         saved = fr.exc
